@@ -62,6 +62,11 @@ def check_case(ctx, case, enum=False, cache=None):
         sk = SU.reload_sk(sk0, sroute, d, hf)
         vk = SU.reload_vk(sk.get_verifying_key() if case.get("vk_from_reloaded_sk") else sk0.get_verifying_key(),
                           vroute, d, hf)
+        if case.get("precompute"):
+            if vk is sk0.get_verifying_key():
+                # never mutate the cached key: work on a reloaded copy
+                vk = SU.reload_vk(vk, "uncompressed", d, hf)
+            vk.precompute(lazy=case["precompute"] == "lazy")
     except Exception as e:
         ctx.fail("key-setup/%s/%s/%s" % (sroute, vroute, exc_sig(e)), case, repr(e))
         return
@@ -144,6 +149,8 @@ def check_case(ctx, case, enum=False, cache=None):
         cls.append("odd-hash")
     if nonce[0] != "k":
         cls.append(nonce[0])
+    if case.get("precompute"):
+        cls.append("precomputed-vk")
     if case.get("boundary"):
         cls.append("boundary")
     if "canonize" in encname:
@@ -182,7 +189,7 @@ def toy_sweep(ctx, cname, digests, encs):
 
 
 def st_case(names, toy):
-    def mk(cname, di, ki, u1, u2, hname, encname, entry, payload, nk, extra, prefix, seed, at, vr, sr, flag, dh):
+    def mk(cname, di, ki, u1, u2, hname, encname, entry, payload, nk, extra, prefix, seed, at, vr, sr, flag, dh, pre=None):
         dm = gen.dom(cname)
         n = dm.n
         bs = gen.boundary_scalars(n)
@@ -205,7 +212,8 @@ def st_case(names, toy):
         return {"curve": cname, "d": dd, "hash": hname, "enc": encname, "entry": entry, "payload": payload.hex(),
                 "nonce": nonce, "at": at, "vk_route": vroutes[vr % len(vroutes)] if vr >= 0 else "none",
                 "sk_route": sroutes[sr % len(sroutes)] if sr >= 0 else "none",
-                "vk_from_reloaded_sk": flag, "default_hash": dh, "boundary": di >= 0 or (nk == 0 and ki >= 0)}
+                "vk_from_reloaded_sk": flag, "default_hash": dh, "boundary": di >= 0 or (nk == 0 and ki >= 0),
+                "precompute": pre}
 
     payloads = st.one_of(st.binary(max_size=70), st.binary(min_size=100, max_size=200),
                          st.sampled_from([b"", b"\x00", b"\xff" * 66, bytes(66), b"\x80" + bytes(31)]))
@@ -215,7 +223,8 @@ def st_case(names, toy):
         st.sampled_from(ENTRIES), payloads, st.integers(0, 1),
         st.one_of(st.just(b""), st.binary(min_size=1, max_size=30)),
         st.one_of(st.binary(max_size=3), st.sampled_from([b"\xff" * 70, bytes(70)])), st.integers(0, 2 ** 64 - 1),
-        st.booleans(), st.integers(-12, 12), st.integers(-8, 8), st.booleans(), st.booleans())
+        st.booleans(), st.integers(-12, 12), st.integers(-8, 8), st.booleans(), st.booleans(),
+        st.sampled_from([None, None, None, "lazy", "eager"]))
 
 
 def sweep_cases(names, full):
